@@ -1116,6 +1116,47 @@ fn gen_glm_data(r: &mut Sm64, p: f64, link: Link, d: usize, n: usize) -> (Vec<Ve
     (x, y)
 }
 
+/// is the stationarity claim made at target scale 2^m?  (filled in from the measured range, see props/C12.json)
+///   log link, 1 <= p <= 2 (gradient unit c^(2-p) between c and 1): yes at every target scale of the sweep.
+///   p = 0 (identity or log link: gradient unit c or c^2) and p = 3 at 2^20 (unit 1/c): not claimed - a step changes
+///   the cost by less than argmin's absolute |delta cost| < EPSILON rule.  Gradient unit >= 2^10: tscale_out_of_range
+///   (known finding F-C12-1), visited by a few probe cases only.
+fn tstat_claimed(p: f64, link: Link, m: i32) -> bool {
+    if std::env::var("C12_STAT_ALL").is_ok() { return true; }
+    m == 0 || (link == Link::Log && p >= 1.0 && p <= 2.0)
+}
+/// log link: the gradient carries the unit c^(2-p) = 2^(m (2 - p)); from about 2^10 on (p < 2 at targets 2^20, p = 3 at
+/// targets 2^-27 / 2^-30) the unit first step of L-BFGS overflows exp and the fit fails or hangs, like at large feature scales
+fn tscale_out_of_range(p: f64, link: Link, m: i32) -> bool { link == Link::Log && (m as f64) * (2.0 - p) >= 10.0 }
+
+/// smallest eigenvalue of the Hessian of 1/2 (deviance_p + alpha |w|^2) in (w, b) for the log link:
+/// sum_i h_i (x_i, 1)(x_i, 1)^T + alpha diag(1.., 0),  h_i = mu_i^(1-p) ((2 - p) mu_i + (p - 1) y_i)  (>= 0 for 1 <= p <= 2)
+fn glm_log_hess_min_eig(x: &[Vec<f64>], y: &[f64], p: f64, alpha: f64, w: &[f64], b: f64) -> f64 {
+    let d = w.len();
+    let m = d + 1;
+    let mut h = vec![vec![0.0f64; m]; m];
+    for (row, yi) in x.iter().zip(y) {
+        let eta: f64 = row.iter().zip(w).map(|(a, c)| a * c).sum::<f64>() + b;
+        let mu = eta.exp();
+        let hi = mu.powf(1.0 - p) * ((2.0 - p) * mu + (p - 1.0) * yi);
+        let mut v: Vec<f64> = row.clone();
+        v.push(1.0);
+        for a in 0..m { for c in 0..m { h[a][c] += hi * v[a] * v[c]; } }
+    }
+    for j in 0..d { h[j][j] += alpha; }
+    // Jacobi eigenvalue iteration (symmetric, m <= 4)
+    for _ in 0..60 {
+        for a in 0..m { for c in (a + 1)..m {
+            if h[a][c].abs() < 1e-300 { continue; }
+            let th = 0.5 * (2.0 * h[a][c]).atan2(h[c][c] - h[a][a]);
+            let (cs, sn) = (th.cos(), th.sin());
+            for k in 0..m { let (u, v) = (h[k][a], h[k][c]); h[k][a] = cs * u - sn * v; h[k][c] = sn * u + cs * v; }
+            for k in 0..m { let (u, v) = (h[a][k], h[c][k]); h[a][k] = cs * u - sn * v; h[c][k] = sn * u + cs * v; }
+        } }
+    }
+    (0..m).map(|a| h[a][a]).fold(f64::INFINITY, f64::min)
+}
+
 fn glm_stream(rng: &mut Sm64, out: &mut Out, id: &mut u64, count: usize, thorough: bool) {
     let powers = [0.0, 1.0, 1.5, 1.2, 2.0, 3.0];
     for it in 0..count {
@@ -1136,20 +1177,60 @@ fn glm_stream(rng: &mut Sm64, out: &mut Out, id: &mut u64, count: usize, thoroug
         let s2 = 2f64.powi(k2);
         let (alpha0, alpha, tol) = (alpha, alpha * s2 * s2, tol * tol_unit(s2, icpt));
         let _ = alpha0;
+        let link = eff_link(&GlmCfg { power: p, link: link_opt, alpha, icpt, tol, maxit: 1000 });
+        // target scale 2^m (only at feature scale 1; the logit link has no target unit).  d_p(c y, c mu) = c^(2-p) d_p(y, mu):
+        //   log link: mu -> c mu is the intercept shift b + m ln 2, weights unchanged; deviance, hence alpha and the gradient
+        //             (tolerance) carry the unit c^(2-p) (exponent rounded to an integer when m (2 - p) is not one);
+        //             an intercept is fitted so that the shift is representable
+        //   identity link: w, b -> c w, c b; deviance c^2 (p = 0), alpha unchanged, gradient and tolerance c
+        let m2: i32 = if k2 != 0 || link == Link::Logit { 0 } else if let Ok(v) = std::env::var("C12_TSCALES") {
+            let v: Vec<i32> = v.split(',').map(|t| t.trim().parse().unwrap()).collect();
+            v[it % v.len()]
+        } else {
+            [-27, -20, 0, -30, 20][(it / 6 + it / 48) % 5] // it / 6: every power (it % 6) meets every target scale
+        };
+        // target scales at which the fit breaks down are kept for one case in four (probes with a short watchdog)
+        let m2 = if tscale_out_of_range(p, link, m2) && it % 4 != 1 { 0 } else { m2 };
+        let c2 = 2f64.powi(m2);
+        let icpt = if m2 != 0 && link == Link::Log { true } else { icpt };
+        let e_unit = m2 as f64 * (2.0 - p);
+        let (alpha_base, tol_base) = (alpha, tol);
+        let (alpha, tol, exact_cov) = if m2 == 0 { (alpha, tol, true) } else if link == Link::Log {
+            let e = e_unit.round() as i32;
+            (alpha * 2f64.powi(e), tol * 2f64.powi(e), e as f64 == e_unit || alpha == 0.0)
+        } else {
+            (alpha, tol * c2, p == 0.0)
+        };
         let cfg = GlmCfg { power: p, link: link_opt, alpha, icpt, tol, maxit: 1000 };
-        let link = eff_link(&cfg);
         let d = 1 + r.below(3) as usize;
         // without a penalty the optimum must exist and be well determined: keep n comfortably above the number of unknowns
         let n = (if alpha == 0.0 { 5 * (d + 1) } else { d + 3 }) + r.below(if thorough { 40 } else { 28 }) as usize;
         let (x, y) = gen_glm_data(&mut r, p, link, d, n);
         let x: Vec<Vec<f64>> = x.iter().map(|row| row.iter().map(|v| v * s2).collect()).collect();
+        let y_base = y.clone();
+        let y: Vec<f64> = y.iter().map(|v| v * c2).collect();
         let stream = "glm";
-        let stat = stat_claimed("glm", k2, icpt, frob(&x));
-        let extra = format!("\"power\": {}, \"link\": {}, \"link_explicit\": {}, \"y_first\": {:?}, \"scale_log2\": {}, \"stationarity_claimed\": {}, {}", p, jstr(link_name(link)), link_opt.is_some(), &y[..2.min(y.len())], k2, stat, lays.json());
+        let stat = stat_claimed("glm", k2, icpt, frob(&x)) && tstat_claimed(p, link, m2) && !tscale_out_of_range(p, link, m2);
+        let extra = format!("\"power\": {}, \"link\": {}, \"link_explicit\": {}, \"y_first\": {:?}, \"scale_log2\": {}, \"target_scale_log2\": {}, \"stationarity_claimed\": {}, {}", p, jstr(link_name(link)), link_opt.is_some(), &y[..2.min(y.len())], k2, m2, stat, lays.json());
         let desc = desc_common("TweedieRegressor", stream, n, d, 0, alpha, icpt, tol, &extra, &x[0]);
         let mut tags: Vec<String> = vec!["glm".into(), format!("power_{}", p), format!("link_{}", link_name(link))];
         tags.push(scale_tag(k2));
         if scale_out_of_range("glm", k2) { tags.push("scale_out_of_solver_range".into()); }
+        tags.push(format!("tscale_2^{}", m2));
+        // log link at small targets: the deviance, the cost and the gradient carry the unit u = c^(2-p) < 1; argmin stops when a
+        // step changes the cost by less than EPSILON (absolute), i.e. at gradients of about sqrt(EPSILON u), so a tolerance
+        // tol u below a few times that is not honoured (known finding F-C12-2; decidable from the hyper-parameters)
+        let u_unit = if link == Link::Log && m2 != 0 { 2f64.powf(e_unit) } else { 1.0 };
+        if u_unit < 1.0 && tol_base < 4.0 * (f64::EPSILON / u_unit).sqrt() {
+            tags.push("tol_below_cost_resolution".into());
+            out.bump("glm_tol_below_cost_resolution");
+        }
+        if tscale_out_of_range(p, link, m2) {
+            tags.push("scale_out_of_solver_range".into());
+            if std::env::var("C12_WATCHDOG").is_err() { WATCHDOG_SECS.store(3, std::sync::atomic::Ordering::Relaxed); }
+        }
+        out.bump(&format!("glm_target_scale_2^{}", m2));
+        if m2 != 0 { out.bump(&format!("glm_target_scale_2^{}_link_{}_power_{}", m2, link_name(link), p)); }
         lays.tags(&mut tags);
         if !stat { tags.push("stationarity_not_claimed".into()); out.bump("stationarity_not_claimed"); }
         let tagrefs: Vec<&str> = tags.iter().map(|s| s.as_str()).collect();
@@ -1178,6 +1259,32 @@ fn glm_stream(rng: &mut Sm64, out: &mut Out, id: &mut u64, count: usize, thoroug
                     Ok(f) => {
                         let term = glm_case_term(*id, &cfg, &x, &y, 0, stat, Some((&f, &q, lays.q)));
                         out.case(*id, &term, &tagrefs, &desc, Some(key));
+                        // metamorphic oracle (Rust side): log link + intercept, convex family 1 <= p <= 2, exact covariance:
+                        // the fit of the targets scaled by 2^m has the weights of the fit of the unscaled targets and the
+                        // intercept shifted by m ln 2, up to what two tol-stationary points of a strongly convex objective
+                        // can differ: |theta - theta'|_2 <= 2 * (2 tol) / lambda_min(Hessian at the reference fit)
+                        if m2 != 0 && stat && link == Link::Log && exact_cov && p >= 1.0 && p <= 2.0 {
+                            let base_cfg = GlmCfg { alpha: alpha_base, tol: tol_base, ..cfg.clone() };
+                            match fit_glm(x.clone(), d, y_base.clone(), base_cfg, q0.clone(), Lays::std()) {
+                                Err(_) => { out.bump("glm_metamorphic_reference_fit_failed"); }
+                                Ok(fb) => {
+                                    let lam = glm_log_hess_min_eig(&x, &y_base, p, alpha_base, &fb.w, fb.b);
+                                    let bound = 4.0 * tol_base / lam + 1e-9;
+                                    let mut dist2 = (f.b - (m2 as f64) * std::f64::consts::LN_2 - fb.b).powi(2);
+                                    for j in 0..d { dist2 += (f.w[j] - fb.w[j]).powi(2); }
+                                    let dist = dist2.sqrt();
+                                    if lam > 0.0 && bound < 0.05 {
+                                        out.bump("glm_metamorphic_target_scale_checked");
+                                        if !(dist <= bound) {
+                                            out.rust_fail(*id, 128, &tagrefs, &format!("target scale 2^{}: (weights, intercept - m ln 2) differ from the fit of the unscaled targets by {:e} > {:e} (tol {:e}, smallest Hessian eigenvalue {:e}); scaled fit w = {:?}, b = {}; reference w = {:?}, b = {}", m2, dist, bound, tol_base, lam, f.w, f.b, fb.w, fb.b), &desc);
+                                        }
+                                        out.rust_eval(&desc, None);
+                                    } else {
+                                        out.bump("glm_metamorphic_skipped_flat_objective");
+                                    }
+                                }
+                            }
+                        }
                     }
                 }
             }
@@ -1328,6 +1435,6 @@ fn main() {
     let mut r5 = rng.fork();
     id = 400_000;
     binary32_stream(&mut r5, &mut out, &mut id, if !on("binary_f32") { 0 } else if thorough { 300 } else { 48 });
-    out.finish("binary: 2-class data (core of d+1 points carrying both classes when alpha = 0, noisy linear labels, per-feature scales 1e-2..1e2, class balance, sample order incl. minority/majority first and exact count ties, bool/usize/String labels with adversarial naming, optional initial parameters) x alpha {0,1e-3,1,100} x intercept x tolerance; binary_f32: LogisticRegression<f32> on the same families (scales 0.1..10, tolerance 1e-2 / 1e-3, start at zero), held to max(tolerance, 8 x the f32 cost resolution floor); decision thresholds 0.5, 0, 1, 0.3, the probability of the first query and its neighbouring floats, tiny / subnormal values; multinomial: 2..6 classes likewise (well-conditioned feature scales) plus the row-spread family of finding F37; GLM: powers {0,1,1.2,1.5,2,3} x links x alpha x intercept with targets in range and |x| <= 1; malformed: class-count errors, shape / non-finite / initial-parameter errors, GLM support violations and border values; every fitted case presents the same logical records / targets / query batch in a rotating memory layout (records and queries: row-major, column-major, reversed rows / reversed columns as view and as owned copy, step-2 slice of a (2n, 2d) array; targets: standard, reversed view / owned, step-2 slice) and in a rotating power-of-two feature unit (x 2^k, alpha 2^2k, tolerance in gradient units; k in {0, -20, 20, -40} for f64 logistic fits, {0, -20, -40} for GLM and f32, probes at 2^40 / 2^20 where argmin breaks down: known finding F-C12-1); stationarity is claimed where the solver honours its tolerance (with intercept: all scales up to 2^20; without: |X|_F >= 2^-20), counted as stationarity_not_claimed otherwise; queries include stored rows, fresh rows, the origin and rows with |x.w| up to 1e4; non-trivial = every successfully fitted case; distinct = hashes of (data, labels, configuration)");
+    out.finish("binary: 2-class data (core of d+1 points carrying both classes when alpha = 0, noisy linear labels, per-feature scales 1e-2..1e2, class balance, sample order incl. minority/majority first and exact count ties, bool/usize/String labels with adversarial naming, optional initial parameters) x alpha {0,1e-3,1,100} x intercept x tolerance; binary_f32: LogisticRegression<f32> on the same families (scales 0.1..10, tolerance 1e-2 / 1e-3, start at zero), held to max(tolerance, 8 x the f32 cost resolution floor); decision thresholds 0.5, 0, 1, 0.3, the probability of the first query and its neighbouring floats, tiny / subnormal values; multinomial: 2..6 classes likewise (well-conditioned feature scales) plus the row-spread family of finding F37; GLM: powers {0,1,1.2,1.5,2,3} x links x alpha x intercept with targets in range and |x| <= 1; malformed: class-count errors, shape / non-finite / initial-parameter errors, GLM support violations and border values; every fitted case presents the same logical records / targets / query batch in a rotating memory layout (records and queries: row-major, column-major, reversed rows / reversed columns as view and as owned copy, step-2 slice of a (2n, 2d) array; targets: standard, reversed view / owned, step-2 slice) and in a rotating power-of-two feature unit (x 2^k, alpha 2^2k, tolerance in gradient units; k in {0, -20, 20, -40} for f64 logistic fits, {0, -20, -40} for GLM and f32, probes at 2^40 / 2^20 where argmin breaks down: known finding F-C12-1); GLM cases at feature scale 1 with the log or identity link additionally multiply the targets by 2^m, m in {-30, -27, -20, 20} (alpha and tolerance in the unit c^(2-p) of the deviance; metamorphic comparison with the unscaled fit for the log link); stationarity is claimed where the solver honours its tolerance (with intercept: all scales up to 2^20; without: |X|_F >= 2^-20), counted as stationarity_not_claimed otherwise; queries include stored rows, fresh rows, the origin and rows with |x.w| up to 1e4; non-trivial = every successfully fitted case; distinct = hashes of (data, labels, configuration)");
     std::process::exit(0);
 }
